@@ -11,7 +11,7 @@ pub fn run(ctx: &Ctx) -> Report {
     let mut rep = Report::new("bcrypt");
     let id = "blowfish::Blowfish(bcrypt)";
     let mut rng = ctx.rng("bcrypt");
-    let nhist = ctx.budget(60, 4000, 2);
+    let nhist = ctx.budget(800, 8000, 2);
     let probes: Vec<[u32; 2]> = (0..32).map(|i| [0x01234567u32.wrapping_mul(i * 2 + 1), 0x89abcdefu32.rotate_left(i) ^ i]).collect();
     let fingerprint_real = |s: &Blowfish| -> Vec<[u32; 2]> { probes.iter().map(|p| s.bc_encrypt(*p)).collect() };
     let fingerprint_model = |s: &M::Blowfish| -> Vec<[u32; 2]> { probes.iter().map(|p| s.encrypt_words(*p)).collect() };
@@ -78,7 +78,7 @@ pub fn run(ctx: &Ctx) -> Report {
         rep.bump(id, "steps", steps as i64);
     }
     // relations: plain expansion == salted with an all-zero salt of any length == ordinary keying
-    for i in 0..ctx.budget(100, 5000, 4) {
+    for i in 0..ctx.budget(1000, 10000, 4) {
         let kl = 4 + rng.below(53);
         let kc = gen::pick_class(&mut rng, i);
         let key = gen::gen(&mut rng, kl, kc);
@@ -109,7 +109,7 @@ pub fn run(ctx: &Ctx) -> Report {
         }
     }
     // end to end: bcrypt assembled from the crate's primitives vs libxcrypt
-    let ncrypt = ctx.budget(12, 300, 1);
+    let ncrypt = ctx.budget(40, 600, 1);
     let mut foreign = 0;
     for i in 0..ncrypt {
         let cost = 4 + rng.below(if ctx.tier == Tier::Quick { 2 } else { 4 }) as u32;
